@@ -324,5 +324,5 @@ func gen(r *hv.Rng, i int, tier string) (string, hv.Val) {
 }
 
 func main() {
-	hv.Main(&hv.Spec{Prop: "C42", Gen: gen, Impl: impl, Setup: setup, NQuick: 4000, NThorough: 300000})
+	hv.Main(&hv.Spec{Prop: "C42", Gen: gen, Impl: impl, Setup: setup, NQuick: 6000, NThorough: 300000})
 }
